@@ -30,6 +30,8 @@ class KalmanLift:
         from irispie.fords import kalmans as kk, covariances as cv, initializers as ini
         from irispie.simultaneous import _kalmans as sk
         import irispie.series.main as sm
+        import irispie.series._elementwise as se
+        self.se = se            # Series.exp()/log() of the output of models with log-variables (object data holding plain NaN floats)
         self.ir, self.kk, self.cv, self.sk, self.sm, self.ini = ir, kk, cv, sk, sm, ini
         self.lift_rows = set(lift_rows)
         self.values = values
@@ -95,7 +97,7 @@ class KalmanLift:
                  (kk, "_INVERSE_FUNCTION", dict(kk._INVERSE_FUNCTION, regular=lambda F: np.linalg.inv(_ground(F)))),
                  # the rank test (LAPACK svd) sees the concrete covariance matrix, as the inverse does
                  (kk, "_check_singularity", lambda F, *a, **k: real_check(_ground(F), *a, **k))]
-        self._ctx = npproxy.installed(self.proxy, kk, self.sk, self.cv, self.sm, extra=extra)
+        self._ctx = npproxy.installed(self.proxy, kk, self.sk, self.cv, self.sm, self.se, extra=extra)
         self._ctx.__enter__()
         self._prev_float = S.ALLOW_FLOAT[0]
         S.ALLOW_FLOAT[0] = True
